@@ -13,6 +13,7 @@
    both build profiles (mode m).  Every "= Val ..." also says: no panic, and the loop fuel
    (number of regions + 1; regions + source length + 2 for a source that may answer short) is never exhausted. *)
 From VM Require Import Prelude.MachInt Prelude.Outcome Impl.Address Impl.Guest Spec.C03 Suite.C03 Proofs.C02 Proofs.C03.
+From VM Require Import Impl.Mmap Proofs.LinkGuestMmap.
 
 (* writing a non-empty buffer stores, in order, exactly the first k bytes on the run starting at
    addr - each byte in the region and offset that owns its address, across region boundaries -,
@@ -208,3 +209,128 @@ Print Assumptions C03_no_fuel.
 Print Assumptions C03_history_refines.
 Print Assumptions C03_model_ok.
 Print Assumptions C03_checker_reading.
+
+(* ---------------------------------------------------------------------------------------------
+   LINK to C10 (Proofs/LinkGuestMmap.v; vocabulary in Properties/C02.v): every find/inv-generic
+   theorem above, instantiated for the binary-search find_region of GuestMemoryMmap
+   ([mmap_find_index]) under the invariant [mmap_inv] that C10 proves of every collection reached
+   by any from_regions / insert_region / remove_region history. *)
+
+(* flagship form, stated over construction histories of byte-carrying regions *)
+Theorem C03_mmap_reachable_write : forall md m (M : mem) buf addr, reachable rstart rlen md M ->
+  lenN buf < W64 -> addr < W64 -> buf <> [] ->
+  exists M' k, gm_write mmap_find_index m M buf addr = Val (M', count_result k) /\
+    is_run (shape M) addr (lenN buf) k /\ shape M' = shape M /\
+    forall x, x < W64 -> rd M' x = if in_range addr k x then nth_error buf (N.to_nat (x - addr)) else rd M x.
+Proof. exact mmap_reachable_write_lemma. Qed.
+
+Theorem C03_mmap_write_refines_flat :
+  forall m M buf addr, mmap_inv (shape M) -> lenN buf < W64 -> addr < W64 -> buf <> [] ->
+  exists M' k, gm_write mmap_find_index m M buf addr = Val (M', count_result k) /\
+    is_run (shape M) addr (lenN buf) k /\ shape M' = shape M /\
+    forall x, x < W64 -> rd M' x = if in_range addr k x then nth_error buf (N.to_nat (x - addr)) else rd M x.
+Proof. exact gm_write_lemma_mmap. Qed.
+
+Theorem C03_mmap_write_frame :
+  forall m M buf addr, mmap_inv (shape M) -> lenN buf < W64 -> addr < W64 ->
+  exists M' r, gm_write mmap_find_index m M buf addr = Val (M', r) /\ shape M' = shape M /\
+    forall x, x < W64 -> ~ (addr <= x < addr + lenN buf) -> rd M' x = rd M x.
+Proof. exact write_frame_lemma_mmap. Qed.
+
+Theorem C03_mmap_read_refines_flat :
+  forall m M buf0 addr, mmap_inv (shape M) -> lenN buf0 < W64 -> addr < W64 -> buf0 <> [] ->
+  exists b k, gm_read mmap_find_index m M buf0 addr = Val (b, count_result k) /\
+    is_run (shape M) addr (lenN buf0) k /\ length b = length buf0 /\
+    forall j, nth_error b j = if N.of_nat j <? k then rd M (addr + N.of_nat j) else nth_error buf0 j.
+Proof. exact gm_read_lemma_mmap. Qed.
+
+Theorem C03_mmap_slice_forms_iff :
+  forall m M buf addr, mmap_inv (shape M) -> lenN buf < W64 -> addr < W64 -> buf <> [] ->
+  (exists M' r, gm_write_slice mmap_find_index m M buf addr = Val (M', r) /\
+     (r = inl tt <-> all_mappedP (shape M) addr (lenN buf)) /\
+     (forall e, r = inr e -> exists k, is_run (shape M) addr (lenN buf) k /\ k < lenN buf /\
+         (e = EPartialBuffer (lenN buf) k \/ (k = 0 /\ e = EInvalidGuestAddress)))) /\
+  (exists b r, gm_read_slice mmap_find_index m M buf addr = Val (b, r) /\
+     (r = inl tt <-> all_mappedP (shape M) addr (lenN buf)) /\
+     (forall e, r = inr e -> exists k, is_run (shape M) addr (lenN buf) k /\ k < lenN buf /\
+         (e = EPartialBuffer (lenN buf) k \/ (k = 0 /\ e = EInvalidGuestAddress)))).
+Proof. exact slice_forms_lemma_mmap. Qed.
+
+Theorem C03_mmap_write_slice_refines_flat :
+  forall m M buf addr, mmap_inv (shape M) -> lenN buf < W64 -> addr < W64 -> buf <> [] ->
+  exists M' k, gm_write_slice mmap_find_index m M buf addr = Val (M', exact_result (lenN buf) k) /\
+    is_run (shape M) addr (lenN buf) k /\ shape M' = shape M /\
+    forall x, x < W64 -> rd M' x = if in_range addr k x then nth_error buf (N.to_nat (x - addr)) else rd M x.
+Proof. exact gm_write_slice_lemma_mmap. Qed.
+
+Theorem C03_mmap_read_slice_refines_flat :
+  forall m M buf0 addr, mmap_inv (shape M) -> lenN buf0 < W64 -> addr < W64 -> buf0 <> [] ->
+  exists b k, gm_read_slice mmap_find_index m M buf0 addr = Val (b, exact_result (lenN buf0) k) /\
+    is_run (shape M) addr (lenN buf0) k /\ length b = length buf0 /\
+    forall j, nth_error b j = if N.of_nat j <? k then rd M (addr + N.of_nat j) else nth_error buf0 j.
+Proof. exact gm_read_slice_lemma_mmap. Qed.
+
+Theorem C03_mmap_obj_roundtrip :
+  forall m M val addr M', mmap_inv (shape M) -> lenN val < W64 -> addr < W64 -> val <> [] ->
+  gm_write_obj mmap_find_index m M val addr = Val (M', inl tt) ->
+  gm_read_obj mmap_find_index m M' (lenN val) addr = Val (inl val) /\
+  (forall buf0, length buf0 = length val ->
+     gm_read_slice mmap_find_index m M' buf0 addr = Val (val, inl tt) /\
+     gm_read mmap_find_index m M' buf0 addr = Val (val, inl (lenN val))).
+Proof. exact obj_roundtrip_lemma_mmap. Qed.
+
+Theorem C03_mmap_atomic_store :
+  forall M bytes addr, mmap_inv (shape M) -> addr < W64 -> 0 < lenN bytes -> lenN bytes < W64 ->
+  exists M' r, gm_store mmap_find_index M bytes addr = Val (M', r) /\ shape M' = shape M /\
+    (r = inl tt <-> atomic_okP (shape M) addr (lenN bytes)) /\
+    (r = inl tt -> forall x, x < W64 ->
+       rd M' x = if in_range addr (lenN bytes) x then nth_error bytes (N.to_nat (x - addr)) else rd M x) /\
+    (forall e, r = inr e -> M' = M /\ (e = EInvalidGuestAddress <-> ~ Mapped (shape M) addr) /\
+                            (e = EInvalidGuestAddress \/ e = EInvalidBackendAddress)).
+Proof. exact gm_store_lemma_mmap. Qed.
+
+Theorem C03_mmap_atomic_load :
+  forall M sz addr, mmap_inv (shape M) -> addr < W64 -> 0 < sz -> sz < W64 ->
+  exists r, gm_load mmap_find_index M sz addr = Val r /\
+    ((exists d, r = inl d) <-> atomic_okP (shape M) addr sz) /\
+    (forall d, r = inl d -> length d = N.to_nat sz /\
+       forall j, nth_error d j = if N.of_nat j <? sz then rd M (addr + N.of_nat j) else None) /\
+    (forall e, r = inr e -> (e = EInvalidGuestAddress <-> ~ Mapped (shape M) addr) /\
+                            (e = EInvalidGuestAddress \/ e = EInvalidBackendAddress)).
+Proof. exact gm_load_lemma_mmap. Qed.
+
+Theorem C03_mmap_read_volatile_from_refines_flat :
+  forall m M addr chunk src count, mmap_inv (shape M) -> count < W64 -> addr < W64 -> lenN src < W64 -> 0 < chunk ->
+  exists M' k, gm_read_volatile_from mmap_find_index m M addr chunk src count =
+               Val ((M', skipn (N.to_nat k) src), stream_result mmap_find_index (shape M) addr k) /\
+    is_run (shape M) addr (N.min count (lenN src)) k /\ shape M' = shape M /\
+    forall x, x < W64 -> rd M' x = if in_range addr k x then nth_error src (N.to_nat (x - addr)) else rd M x.
+Proof. exact gm_read_volatile_from_lemma_mmap. Qed.
+
+Theorem C03_mmap_write_volatile_to_refines_flat :
+  forall m M addr dst count, mmap_inv (shape M) -> count < W64 -> addr < W64 ->
+  exists d k, gm_write_volatile_to mmap_find_index m M addr dst count = Val (d, stream_result mmap_find_index (shape M) addr k) /\
+    is_run (shape M) addr count k /\
+    d = dst ++ skipn (length dst) d /\ length d = (length dst + N.to_nat k)%nat /\
+    forall j, (j < N.to_nat k)%nat -> nth_error d (length dst + j) = rd M (addr + N.of_nat j).
+Proof. exact gm_write_volatile_to_lemma_mmap. Qed.
+
+Theorem C03_mmap_no_fuel :
+  forall m M buf addr, mmap_inv (shape M) -> lenN buf < W64 -> addr < W64 ->
+  (exists v, gm_write mmap_find_index m M buf addr = Val v) /\ (exists v, gm_read mmap_find_index m M buf addr = Val v) /\
+  (exists v, gm_write_slice mmap_find_index m M buf addr = Val v) /\ (exists v, gm_read_slice mmap_find_index m M buf addr = Val v).
+Proof. exact no_fuel_lemma_mmap. Qed.
+
+Print Assumptions C03_mmap_reachable_write.
+Print Assumptions C03_mmap_write_refines_flat.
+Print Assumptions C03_mmap_write_frame.
+Print Assumptions C03_mmap_read_refines_flat.
+Print Assumptions C03_mmap_slice_forms_iff.
+Print Assumptions C03_mmap_write_slice_refines_flat.
+Print Assumptions C03_mmap_read_slice_refines_flat.
+Print Assumptions C03_mmap_obj_roundtrip.
+Print Assumptions C03_mmap_atomic_store.
+Print Assumptions C03_mmap_atomic_load.
+Print Assumptions C03_mmap_read_volatile_from_refines_flat.
+Print Assumptions C03_mmap_write_volatile_to_refines_flat.
+Print Assumptions C03_mmap_no_fuel.
